@@ -9,13 +9,18 @@
 (* contents, file formats, file addresses and the entry point (dictionary / YAML / JSON) are          *)
 (* concretised by the replayer (they do not influence placement).                                    *)
 (* Menus: Offs = where a region with an offset lands, BinLens = region sizes, Sizes = overall sizes,  *)
-(* Aligns = alignments, MaxNodes = maximal number of regions.                                        *)
+(* Aligns = alignments, MaxNodes = maximal number of regions;  NegOffs = how far IN FRONT of the       *)
+(* merged image a region with an offset lands (magnitudes: a configuration file of TLC has no negative *)
+(* numbers) - every kind of region, wholly in front or straddling offset 0: the tree is built as       *)
+(* described and validate() has to refuse it.                                                          *)
 EXTENDS BinImage, Json
+CONSTANT NegOffs
+Lands == Offs \cup {0 - x : x \in NegOffs}
 VARIABLE abstract          \* the abstract configuration the tree was built from (what is emitted)
 Ones == [kind |-> "ones", b |-> <<>>]
 Inc == [kind |-> "inc", b |-> <<>>]
 Kinds == {"block", "bin", "hex1", "hex2"}
-ARegions == {[kind |-> kd, hasoff |-> h, off |-> o, n |-> n] : kd \in Kinds, h \in BOOLEAN, o \in Offs, n \in BinLens}
+ARegions == {[kind |-> kd, hasoff |-> h, off |-> o, n |-> n] : kd \in Kinds, h \in BOOLEAN, o \in Lands, n \in BinLens}
 ARegion == {r \in ARegions : (~r.hasoff => r.off = 0) /\ (r.kind # "block" => r.n >= 1)}
 \* (an explicit overall size is combined with alignment 1 only: the two meet in Align(size, al) alone, which the tree lanes sweep)
 Roots2 == {x \in Sizes \X Aligns : x[1] = 0 \/ x[2] = 1}
@@ -33,7 +38,13 @@ CRegion(r, k) ==
 Concrete(c) == [size |-> c.size, al |-> c.al, pat |-> [kind |-> "bytes", b |-> <<165>>],
                 regions |-> [k \in DOMAIN c.regions |-> CRegion(c.regions[k], k)]]
 CInit == Init /\ abstract = <<>>
-DoConfig == \E c \in ACfgs : \E pl \in Places(Concrete(c), <<>>, 1) : Config(Concrete(c), pl) /\ abstract' = c
+\* Left out of the enumeration (not of the specification): a configuration that lists a region behind regions which ALL end below 0.
+\* load_from_config refuses such a configuration itself ("Wrong alignment": it works out the place behind the regions listed so far for
+\* every region, also for one that has an offset) - the merge fails as it has to, only not in validate(); the property does not speak
+\* about that.  A region in front of the image that is listed last, or that reaches offset 0, or that follows a region at or behind 0 stays in.
+Listable(cfg, pl) == \A k \in 2..Len(pl) : AllEnd(cfg.regions, pl, k) >= 0
+\* (the guard of Config comes first: a state that holds a tree has no successor, and TLC need not walk the configurations to find that out)
+DoConfig == forest = <<>> /\ \E c \in ACfgs : \E pl \in Places(Concrete(c), <<>>, 1) : Listable(Concrete(c), pl) /\ Config(Concrete(c), pl) /\ abstract' = c
 CNext == DoConfig
 \* ---- lemmas on every tree built from a configuration
 IsCfg == act.a = "Config"
@@ -55,7 +66,9 @@ GivenOffsetsKept == IsCfg => \A k \in DOMAIN act.place : act.cfg.regions[k].haso
 \* for a listing in address order the two readings of "after the previous one" are the same place
 InOrder(cfg, pl) == \A k \in DOMAIN pl : \A j \in 1..(k - 1) : pl[j] + RLen(cfg.regions[j]) <= pl[k]
 ReadingsCoincide == IsCfg /\ InOrder(act.cfg, act.place) =>
-                      \A k \in DOMAIN act.place : Cardinality(AppendChoices(act.cfg, act.place, k)) = 1
+                      \A k \in DOMAIN act.place : Cardinality(AppendChoices(act.cfg, act.place, k)) <= 1
+\* a region that lands below 0 makes the merged image invalid, whatever else the configuration holds
+FrontRegionRefused == IsCfg => ((\E k \in DOMAIN act.place : act.place[k] < 0) => Verdict(forest, 1) = "error")
 \* a region without offset that goes behind all regions listed before it overlaps none of them and starts on the alignment
 AppendedIsBehind == IsCfg => \A k \in DOMAIN act.place :
                       (~act.cfg.regions[k].hasoff /\ act.place[k] = Align(AllEnd(act.cfg.regions, act.place, k), act.cfg.al)) =>
